@@ -214,6 +214,18 @@ def Normalised {κ : Type} (tags : AList κ (AList Sym Rat)) : Prop :=
 def normalisedB {κ : Type} (tags : AList κ (AList Sym Rat)) : Bool :=
   tags.all (fun e => rsum (AList.values e.2) = 1)
 
+/-- the sums of the rows, in dict order -/
+def rowSumsOf {κ : Type} (tags : AList κ (AList Sym Rat)) : List Rat :=
+  tags.map (fun e => rsum (AList.values e.2))
+
+/-- total weight of a row of a probabilistic unambiguous grammar -/
+def uRowSum {κ : Type} (row : AList Sym (AList κ Rat)) : Rat :=
+  rsum (row.map fun e => rsum (AList.values e.2))
+
+/-- every row of a probabilistic unambiguous grammar sums to 1 -/
+def NormalisedU {U : Type} (tags : UTags U) : Prop :=
+  ∀ e ∈ tags, uRowSum e.2 = 1
+
 /-! ### hypotheses (all decidable) -/
 
 /-- the values of a type are pairwise distinct (as `Constant`s) and are values (not the
